@@ -538,7 +538,7 @@ func cmdCheck(args []string) int {
 			fmt.Println("cannot save replay:", err)
 			return 2
 		}
-		if !noMinimize[f] {
+		if !noMinimize[f] && f.Clause != "hang" {
 			if min := minimize(plainBin, path, f.Clause); min != "" {
 				path = min
 			}
